@@ -155,6 +155,21 @@ var ruleAddendaRound9 = map[string]string{
 	"C19": "groups in the user model and session snapshot, a PUT changing them, the assertion's groups compared with those stored at login; a PUT whose body carries hashed_password",
 }
 
+// ruleAddendaRound10: extensions of the tenth round.
+var ruleAddendaRound10 = map[string]string{
+	"C01": "fingerprint trust configured with 11 other spellings of the fingerprint (or none) x 6 layouts x every operator",
+	"C02": "a confirmation that states no NotOnOrAfter (absent, empty) over the whole window lattice",
+	"C04": "tracking tokens minted under the middleware's own key for a sibling application (other audience / issuer / both) as decoy cookies",
+	"C07": "an attribute whose value is a name identifier with every optional part; the comparison covers the nested identifier",
+	"C08": "random sources answering a Read with at most 1 / 7 / 8 / 15 / 16 / 17 / 24 / 31 / 32 octets; partly-zero keys and IVs are degenerate",
+	"C09": "43 optional attributes / children added to a valid AuthnRequest (alone, and an attribute-service index next to each child) through Validate and ServeSSO, for an SP with and without AttributeConsumingServices",
+	"C11": "certificates of another key that are damaged or that a strict parser refuses (truncated, trailing data, version out of range, signature bit flipped)",
+	"C12": "all eight signature methods (ECDSA with an EC key) toward this library's IdP",
+	"C17": "the IdP's signed answer to another browser's request re-wrapped in an unsigned Response naming this browser's pending request (bearer / holder-of-key / sender-vouches)",
+	"C19": "a federation aggregate (EntitiesDescriptor) as the body of PUT /services: the first SP in it is what the service stands for",
+	"C20": "serial group: after any handler (incl. a login with an over-long password) has been served six times, every handler is still served, each under a deadline",
+}
+
 // Register adds a check.
 func Register(c *Check) {
 	if a := ruleAddenda[c.ID]; a != "" {
@@ -174,6 +189,9 @@ func Register(c *Check) {
 	}
 	if a := ruleAddendaRound9[c.ID]; a != "" {
 		c.Rule += " Ninth round: " + a
+	}
+	if a := ruleAddendaRound10[c.ID]; a != "" {
+		c.Rule += " Tenth round: " + a
 	}
 	registry[c.ID] = c
 }
